@@ -253,7 +253,12 @@ class ConcreteEnv(BaseEnv):
         if a.shape != b.shape:
             raise CheckFailed(label, 'shape %s != %s' % (a.shape, b.shape))
         if a.dtype.kind in 'fc' or b.dtype.kind in 'fc':
-            ok = np.array_equal(a.astype(float), b.astype(float), equal_nan=True)
+            # the claim is over real arithmetic: two floating-point evaluation orders of the same expression may differ in the
+            # last bits, which is not a disagreement (4e-13 relative is far below any witness the solver produces)
+            fa, fb = a.astype(float), b.astype(float)
+            with np.errstate(all='ignore'):
+                ok = bool(np.all((fa == fb) | (np.isnan(fa) & np.isnan(fb)) |
+                                 (np.isfinite(fa) & np.isfinite(fb) & (np.abs(fa - fb) <= 4e-13 * np.maximum(np.abs(fa), np.abs(fb))))))
         else:
             ok = np.array_equal(a, b)
         if not ok:
